@@ -69,6 +69,80 @@ theorem run_side_agree (sys : Sys) (fuel : Nat) (s c : Id) (hne : s.reg ≠ c.re
       simp only [runOps, List.filterMap_cons, onSide, hsd, if_false, resultsOps]
       exact this
 
+/-! ## interleaving of ARBITRARY region-local computations
+
+`Loc r m` is a semantic property of a heap computation `m`: started in a heap whose region `r` is closed, it
+keeps `r` closed, leaves every other region as it was, opens no region, and both its answer and what it makes of
+region `r` depend on region `r` alone.  Every public call of `Op` has it (`step_loc`); so has anything composed of
+local computations (`Loc.bind`, `Loc.ite`, `Loc.mapMH`, `Loc.tryFinally` …).  The interleaving theorem needs
+nothing else of the operations. -/
+
+/-- the heap after an interleaved history of arbitrary computations on the two sides -/
+def runAny {α : Type} : List (Side × HM α) → Heap → Heap
+  | [], h => h
+  | (_, m) :: rest, h => runAny rest (m h).2
+
+/-- the heap after the computations of one side, in order -/
+def runAnySide {α : Type} : List (HM α) → Heap → Heap
+  | [], h => h
+  | m :: rest, h => runAnySide rest (m h).2
+
+def resultsAnySide {α : Type} : List (HM α) → Heap → List (Except Err α)
+  | [], _ => []
+  | m :: rest, h => (m h).1 :: resultsAnySide rest (m h).2
+
+def resultsAny {α : Type} (sd : Side) : List (Side × HM α) → Heap → List (Except Err α)
+  | [], _ => []
+  | (sd', m) :: rest, h => if sd' = sd then (m h).1 :: resultsAny sd rest (m h).2 else resultsAny sd rest (m h).2
+
+def onSideAny {α : Type} (sd : Side) (e : Side × HM α) : Option (HM α) := if e.1 = sd then some e.2 else none
+
+/-- frame rule + induction: an interleaved history of region-local computations and the history of side `sd`
+alone keep the region of `sd` identical and give the same answers to the computations of `sd` -/
+theorem run_any_agree {α : Type} (s c : Id) (hne : s.reg ≠ c.reg) (sd : Side) :
+    ∀ (ops : List (Side × HM α)), (∀ e ∈ ops, Loc (sideId s c e.1).reg e.2 (fun _ => True)) →
+      ∀ (hi ha : Heap), Closed s.reg hi → Closed c.reg hi →
+      hi[(sideId s c sd).reg]? = ha[(sideId s c sd).reg]? →
+      (runAny ops hi)[(sideId s c sd).reg]? = (runAnySide (ops.filterMap (onSideAny sd)) ha)[(sideId s c sd).reg]?
+        ∧ Closed s.reg (runAny ops hi) ∧ Closed c.reg (runAny ops hi)
+        ∧ resultsAny sd ops hi = resultsAnySide (ops.filterMap (onSideAny sd)) ha := by
+  intro ops
+  induction ops with
+  | nil =>
+    intro _ hi ha cs cc e
+    exact ⟨e, cs, cc, rfl⟩
+  | cons a rest ih =>
+    intro hloc hi ha cs cc e
+    obtain ⟨sd', m⟩ := a
+    have cx : ∀ sd'', Closed (sideId s c sd'').reg hi := fun sd'' => by
+      cases sd''
+      · exact cs
+      · exact cc
+    have L : Loc (sideId s c sd').reg m (fun _ => True) := hloc (sd', m) (List.mem_cons_self ..)
+    have hrest : ∀ e ∈ rest, Loc (sideId s c e.1).reg e.2 (fun _ => True) :=
+      fun e he => hloc e (List.mem_cons_of_mem _ he)
+    have fr := L.frame hi (cx sd')
+    have cs' : Closed s.reg (m hi).2 := by
+      cases sd'
+      · exact fr.1
+      · exact cs.congr (fr.2.1 s.reg hne).symm
+    have cc' : Closed c.reg (m hi).2 := by
+      cases sd'
+      · exact cc.congr (fr.2.1 c.reg (Ne.symm hne)).symm
+      · exact fr.1
+    by_cases hsd : sd' = sd
+    · subst hsd
+      have lc := L.loc hi ha (cx sd') e
+      have := ih hrest _ (m ha).2 cs' cc' lc.2.symm
+      simp only [runAny, List.filterMap_cons, onSideAny, if_true, runAnySide, resultsAny, resultsAnySide]
+      refine ⟨this.1, this.2.1, this.2.2.1, ?_⟩
+      rw [this.2.2.2, lc.1]
+    · have hr := sideId_other_ne hne hsd
+      have keep : (m hi).2[(sideId s c sd).reg]? = hi[(sideId s c sd).reg]? := fr.2.1 _ (Ne.symm hr)
+      have := ih hrest _ ha cs' cc' (keep.trans e)
+      simp only [runAny, List.filterMap_cons, onSideAny, hsd, if_false, resultsAny]
+      exact this
+
 /-- what is observed of a simulation is a function of its (closed) region -/
 theorem observe_region {r : Nat} {x : Id} (hx : x.reg = r) {h1 h2 : Heap} (c : Closed r h1) (e : h1[r]? = h2[r]?) :
     (observe x h2).1 = (observe x h1).1 := ((Loc.observe hx).loc h1 h2 c e).1
